@@ -648,7 +648,7 @@ class Explorer:
 # ------------------------------------------------------------------------------------- history families
 def histories_dev_key(n):
     v = n.split('/', 1)[1].split('.')
-    return (int(v[0]), int(v[1]) if len(v) > 1 else None)
+    return (int(v[0]), int(v[1]) if len(v) > 1 else 10 ** 6)       # development/<major> comes last in its major
 
 
 def scripted_and_run(seed, fault_for=None, on_job=None):
@@ -695,7 +695,8 @@ def scripted_and_run(seed, fault_for=None, on_job=None):
             devs = sorted((histories_dev_key(d), d) for d in dests if d.startswith('development/'))
             major = devs[-1][0][0]
             do({'e': 'job_api', 'kind': 'create_branch', 'args': {'branch': rng.choice(
-                ['development/%d.0' % (major + 1), 'development/%d.%d' % (major, (devs[-1][0][1] or 0) + 1)])}})
+                ['development/%d.0' % (major + 1), 'development/%d.%d' % (
+                    major, max([k[1] for k, _d in devs if k[0] == major and k[1] < 10 ** 6] + [-1]) + 1)])}})
         for _round in range(2):
             q = sorted(x for x in world.refs() if x.startswith('q/w/'))
             if not q:
